@@ -60,6 +60,12 @@ def step (s : St) (ws : List String) : St × String :=
   | ["del", a, k] => ({ s with l := setState l (parseAddr a) (tok k) none }, "ok")
   | ["bal", a] => let (l', v) := getBalance l (parseAddr a); ({ s with l := l' }, toString v)
   | ["setbal", a, n] => ({ s with l := setBalance l (parseAddr a) (n.toInt?.getD 0) }, "ok")
+  | ["addbal", a, n] =>
+    -- AddBalance / SubBalance: a zero delta is no write at all; generators only subtract from accounts that hold enough
+    let d := n.toInt?.getD 0
+    if d == 0 then (s, "ok") else
+      let r := getBalance l (parseAddr a)
+      ({ s with l := setBalance r.1 (parseAddr a) (r.2 + d) }, "ok")
   | ["nonce", a] => let (l', v) := getNonce l (parseAddr a); ({ s with l := l' }, toString v)
   | ["setnonce", a, n] => ({ s with l := setNonce l (parseAddr a) (n.toNat?.getD 0) }, "ok")
   | ["code", a] => let (l', v) := getCode l (parseAddr a); ({ s with l := l' }, showB v)
